@@ -215,6 +215,45 @@ class Rendering(Harness):
         yield 'disabled-class-members-never-recommended', bad == []
 
 
+class Advisory(Harness):
+    """whole report of a peer that advertises its role's marker and still offers vulnerable-class algorithms: the advisory note is shown in the text report and in
+    the JSON document and names exactly those algorithms - also when the peer has no other finding at all (post-quantum key exchange, Ed25519 key)."""
+    prop, ob = PROP, 'O2'
+    width = 64
+    NOTE_HEAD = '(nfo) Be aware that, while this target properly supports the strict key exchange method'
+
+    def __init__(self, flawless, client):
+        self.flawless, self.client = flawless, client
+        self.name = 'advisory-%s-%s' % ('flawless' if flawless else 'typical', 'client' if client else 'server')
+
+    def params(self):
+        return {'flawless': self.flawless, 'client': self.client}
+
+    def inputs(self):
+        return {}
+
+    def run(self, M, inp):
+        kex = ['mlkem768x25519-sha256', 'sntrup761x25519-sha512@openssh.com'] if self.flawless else ['curve25519-sha256', 'diffie-hellman-group14-sha256']
+        L = {'kex': kex + [MC if self.client else MS], 'key': ['ssh-ed25519'], 'enc': ['chacha20-poly1305@openssh.com', 'aes256-gcm@openssh.com'], 'mac': ['hmac-sha2-256-etm@openssh.com']}
+        t = OL.run_output(M, L, client=self.client, sw='OpenSSH_9.9')
+        j = OL.run_output(M, L, json=True, client=self.client, sw='OpenSSH_9.9')
+        if isinstance(t['ret'], Exc) or isinstance(j['ret'], Exc):
+            return {'exc': t['ret'] if isinstance(t['ret'], Exc) else j['ret']}
+        notes = [ln for ln in t['lines'] if OL._starts(ln, self.NOTE_HEAD)]
+        recs = [ln for ln in t['lines'] if OL._starts(ln, '(rec) -') or OL._starts(ln, '(rec) !')]      # removals / changes: the report's notion of "problems"
+        return {'text_notes': notes, 'json_notes': [n for n in j['doc']['additional_notes'] if 'strict key exchange' in n], 'nrec': len(recs), 'ret': t['ret']}
+
+    def check(self, inp, obs):
+        if 'exc' in obs:
+            yield 'no-exception', False
+            return
+        if self.flawless:
+            yield 'peer-has-no-other-finding(reachability)', obs['nrec'] == 0
+        names = 'chacha20-poly1305@openssh.com.'
+        yield 'advisory-in-text-names-exactly-the-algorithms', len(obs['text_notes']) == 1 and ('create vulnerable SSH channels with this target: ' + names) in obs['text_notes'][0]
+        yield 'advisory-in-json-names-exactly-the-algorithms', len(obs['json_notes']) == 1 and ('create vulnerable SSH channels with this target: ' + names) in obs['json_notes'][0]
+
+
 def tasks(tier):
     q = tier == 'quick'
     T = []
@@ -243,6 +282,9 @@ def tasks(tier):
         for marker in (False, True):
             T.append(Rendering(e, m, marker))
             T.append(Rendering(e, m, marker, True))
+    for flawless in (True, False):
+        for client in (False, True):
+            T.append(Advisory(flawless, client))
     return T
 
 
@@ -251,6 +293,8 @@ def harness_by_name(name, params):
     p = params
     if k == 'rule':
         return Rule(p['client'], p['markers'], p['enc'], p['mac'])
+    if k == 'advisory':
+        return Advisory(p['flawless'], p['client'])
     if k == 'render':
         return Rendering(p['enc'], p['mac'], p['marker'], p.get('client', False))
     raise KeyError(name)
